@@ -4,6 +4,6 @@ set -e
 cd "$(dirname "$0")"
 export GOFLAGS=-mod=mod GOPROXY=off GOSUMDB=off GOTOOLCHAIN=local
 mkdir -p bin build evidence replays
-./build.sh
+./build.sh && ./build.sh vcheck-seam
 ./bin/vcheck smoke >/dev/null
 echo "setup ok"
